@@ -301,11 +301,19 @@ func (sc *scenario) step(allowNew bool) bool {
 }
 
 // settle releases gates and sends until every actor is parked or done.
+// bail ends the driver process when the real code has panicked: the trace
+// (which ends with the panic event) is the result, and other goroutines may
+// be stuck behind a lock the panicking one still holds.
+func (sc *scenario) bail() {
+	if sc.w.Panicked() {
+		sc.w.tr.Close()
+		os.Exit(0)
+	}
+}
+
 func (sc *scenario) settle() {
 	for i := 0; i < 10000; i++ {
-		if sc.w.Panicked() {
-			return
-		}
+		sc.bail()
 		if g := sc.actorsIn("gate"); len(g) > 0 {
 			sc.w.Release(pick(sc.rng, g))
 			continue
@@ -327,13 +335,7 @@ func (sc *scenario) settle() {
 // read to the end, then everybody leaves and all timeouts pass.
 func (sc *scenario) drain() {
 	w := sc.w
-	if w.Panicked() {
-		// The real code panicked: the trace (which ends with the panic
-		// event) is the result. Other goroutines may be stuck behind a
-		// lock the panicking one still holds, so the process ends here.
-		w.tr.Close()
-		os.Exit(0)
-	}
+	sc.bail()
 	w.tr.Emit(common.Ev{"ev": "phase", "phase": "drain"})
 	// 1. let workers complete what they believe they are executing
 	for round := 0; round < 12; round++ {
@@ -398,6 +400,7 @@ func (sc *scenario) drain() {
 			left++
 		}
 	}
+	sc.bail()
 	lockFree := w.bq.VerifLockIsFree()
 	w.tr.Emit(common.Ev{"ev": "final", "actors_left": left, "lock_free": lockFree})
 }
